@@ -1,3 +1,182 @@
 import VpnCloud.Model.Core
+import VpnCloud.Spec.C04
+import VpnCloud.Proofs.Lemmas.CoreLemmas
+/-
+  C04 — nonce discipline of the sender: `Nonce::increment` is +1, every seal uses a fresh nonce,
+  the two ends of a connection draw from disjoint halves of the nonce space, the receiver rebuilds
+  the nonce from the 7 transmitted bytes exactly while the counter fits 56 bits.
+  All statements are proved as given (no hypothesis added).
+-/
 namespace VpnCloud.Proofs.C04
+
+open VpnCloud VpnCloud.Spec.C04
+open VpnCloud.Proofs.CoreLemmas
+
+/-- the byte-wise carry chain of `Nonce::increment` is +1 modulo 256^len on the big-endian value (len = 12 in the code) -/
+theorem increment_val (n : Bytes) (h : Bytes.WF n) :
+    Bytes.beVal (Nonce.increment n) = (Bytes.beVal n + 1) % 256 ^ n.length := by
+  have := incRev_val n.reverse (wf_reverse.2 h)
+  rwa [List.reverse_reverse, List.length_reverse] at this
+
+theorem increment_wf (n : Bytes) (h : Bytes.WF n) : Bytes.WF (Nonce.increment n) ∧ (Nonce.increment n).length = n.length := by
+  constructor
+  · exact wf_reverse.2 (incRev_wf _ (wf_reverse.2 h))
+  · simp only [Nonce.increment, List.length_reverse, incRev_length]
+
+/-- non-vacuity: a carry over two bytes, and the wrap-around of the all-ones nonce -/
+example : Nonce.increment [0, 0, 0, 0, 0, 0, 0, 0, 0, 1, 255, 255] = [0, 0, 0, 0, 0, 0, 0, 0, 0, 2, 0, 0] ∧
+    Nonce.increment [255, 255, 255, 255, 255, 255, 255, 255, 255, 255, 255, 255] = [0, 0, 0, 0, 0, 0, 0, 0, 0, 0, 0, 0] := by
+  decide
+
+/-- one seal: increment-before-use, header = key id + low 7 nonce bytes -/
+theorem encrypt_spec (c : Core) (p : Bytes) (k : SlotKey) (hk : c.slots[c.cur]? = some k) (hlt : k.send + 1 < NONCE_MOD) :
+    (c.encrypt p).2 = { hdr := c.cur :: Bytes.ofBE 7 (k.send + 1), body := .sealed k.key (k.send + 1) p } ∧
+    (c.encrypt p).1 = { c with slots := c.slots.set c.cur { k with send := k.send + 1 } } := by
+  have hm : (k.send + 1) % NONCE_MOD = k.send + 1 := Nat.mod_eq_of_lt hlt
+  simp only [Core.encrypt, hk, hm, and_self]
+
+/-- after a seal the current slot holds the same key with the counter advanced by one -/
+theorem encrypt_slot (c : Core) (p : Bytes) (k : SlotKey) (hk : c.slots[c.cur]? = some k) (hlt : k.send + 1 < NONCE_MOD) :
+    (c.encrypt p).1.slots[(c.encrypt p).1.cur]? = some { k with send := k.send + 1 } := by
+  have hcur : c.cur < c.slots.length := (List.getElem?_eq_some_iff.1 hk).1
+  rw [(encrypt_spec c p k hk hlt).2]
+  simp only [List.getElem?_set_self hcur]
+
+/-- the nonces of consecutive seals under one key strictly increase: the i-th datagram carries send + 1 + i -/
+theorem send_strictly_increasing (c : Core) (ps : List Bytes) (k : SlotKey) (hk : c.slots[c.cur]? = some k)
+    (hlt : k.send + ps.length < NONCE_MOD) :
+    (sealMany c ps).2.map sealedWith = (List.range ps.length).map (fun i => some (k.key, k.send + 1 + i)) := by
+  induction ps generalizing c k with
+  | nil => rfl
+  | cons p ps ih =>
+    rw [List.length_cons] at hlt
+    have hlt1 : k.send + 1 < NONCE_MOD := by omega
+    have hk' := encrypt_slot c p k hk hlt1
+    have ih' := ih (c.encrypt p).1 { k with send := k.send + 1 } hk' (by show k.send + 1 + ps.length < NONCE_MOD; omega)
+    simp only [sealMany, List.map_cons, ih', (encrypt_spec c p k hk hlt1).1, sealedWith, List.length_cons,
+      List.range_succ_eq_map, List.map_map, Nat.add_zero]
+    congr 1
+    apply List.map_congr_left
+    intro i _
+    simp only [Function.comp, Nat.succ_eq_add_one]
+    congr 2
+    omega
+
+/-- hence no (key, nonce) pair is used twice by one sender under one key -/
+theorem seal_log_nodup (c : Core) (ps : List Bytes) (k : SlotKey) (hk : c.slots[c.cur]? = some k)
+    (hlt : k.send + ps.length < NONCE_MOD) : ((sealMany c ps).2.map sealedWith).Nodup := by
+  rw [send_strictly_increasing c ps k hk hlt]
+  apply List.Pairwise.map _ _ List.pairwise_lt_range
+  intro a b hab heq
+  simp only [Option.some.injEq, Prod.mk.injEq, true_and] at heq
+  omega
+
+/-- non-vacuity: three seals from a fresh core carry three consecutive nonces -/
+example : ((sealMany (Core.new 7 true 8 [5, 6, 7, 8]) [[1], [2], [3]]).2.map sealedWith) =
+    [some (7, HALF + 6), some (7, HALF + 7), some (7, HALF + 8)] := by
+  decide
+
+/-- a fresh key starts in its half and stays there for 2^95 - 2^48 seals -/
+theorem stays_in_half (key : KeyRef) (half : Bool) (start m : Nat) (hs : start < 2 ^ 48) (hm : m < 2 ^ 95 - 2 ^ 48) :
+    base half < (SlotKey.new key half start).send + 1 + m ∧ (SlotKey.new key half start).send + 1 + m < base half + 2 ^ 95 := by
+  rw [pow48] at hs
+  rw [pow95, pow48] at hm
+  rw [pow95]
+  simp only [SlotKey.new, base]
+  omega
+
+/-- the two ends draw from disjoint halves: no common nonce even under the same key -/
+theorem halves_disjoint (key : KeyRef) (s1 s2 m1 m2 : Nat) (h1 : s1 < 2 ^ 48) (h2 : s2 < 2 ^ 48)
+    (hm1 : m1 < 2 ^ 95 - 2 ^ 48) (hm2 : m2 < 2 ^ 95 - 2 ^ 48) :
+    (SlotKey.new key true s1).send + 1 + m1 ≠ (SlotKey.new key false s2).send + 1 + m2 := by
+  rw [pow48] at h1 h2
+  rw [pow95, pow48] at hm1 hm2
+  simp only [SlotKey.new, half_eq, if_true, Bool.false_eq_true, if_false]
+  omega
+
+/-- the receiver's reconstruction in terms of `base` -/
+theorem reconstruct_eq (r : Core) (ctr : Nat) : r.reconstruct ctr = base (!r.half) + ctr := by
+  cases hh : r.half <;> simp [Core.reconstruct, base, hh]
+
+/-- the base of a half is a multiple of 2^56 -/
+theorem base_mod (half : Bool) (v : Nat) : (base half + v) % 2 ^ 56 = v % 2 ^ 56 := by
+  cases half
+  · simp [base]
+  · have : HALF = 2 ^ 56 * 2 ^ 39 := by unfold HALF; decide
+    simp only [base, if_true, this, Nat.mul_add_mod]
+
+/-- the receiver rebuilds the sender's nonce from the 7 transmitted bytes iff the counter fits 56 bits -/
+theorem reconstruct_iff (r : Core) (n v : Nat) (hn : n = base (!r.half) + v) (hv : v < 2 ^ 95) :
+    r.reconstruct (Bytes.beVal (Bytes.ofBE 7 n)) = n ↔ v < 2 ^ 56 := by
+  rw [reconstruct_eq, beVal_ofBE7, hn, base_mod]
+  have := Nat.mod_lt v (show 2 ^ 56 > 0 by decide)
+  constructor
+  · intro h
+    have : v % 2 ^ 56 = v := by omega
+    omega
+  · intro h
+    rw [Nat.mod_eq_of_lt h]
+
+/-- the fields of a sealed datagram as `decrypt` sees them -/
+theorem sealed_fields (kid n : Nat) (body : Body) :
+    (Dgram.mk (kid :: Bytes.ofBE 7 n) body).keyId = kid ∧
+    (Dgram.mk (kid :: Bytes.ofBE 7 n) body).counter = n % 2 ^ 56 ∧
+    (Dgram.mk (kid :: Bytes.ofBE 7 n) body).len = 8 + body.len := by
+  refine ⟨rfl, ?_, ?_⟩
+  · simp only [Dgram.counter, List.drop_succ_cons, List.drop_zero]
+    rw [List.take_of_length_le (by rw [ofBE_length]; exact Nat.le_refl _), beVal_ofBE7]
+  · simp only [Dgram.len, List.length_cons, ofBE_length]
+
+/-- `decrypt` only succeeds on a seal under the reconstructed nonce -/
+theorem decrypt_wrong_nonce (r : Core) (d : Dgram) (key n : Nat) (p : Bytes)
+    (hb : d.body = .sealed key n p) (hne : n ≠ r.reconstruct d.counter) :
+    ∃ e, (r.decrypt d).2 = .error e := by
+  unfold Core.decrypt
+  split
+  · exact ⟨_, rfl⟩
+  · split
+    · exact ⟨_, rfl⟩
+    · split
+      · exact ⟨_, rfl⟩
+      · simp only [hb]
+        split
+        · exact ⟨_, rfl⟩
+        · rw [if_neg (fun h => hne h.2)]
+          exact ⟨_, rfl⟩
+
+/-- a counter that no longer fits the 56 transmitted bits makes the datagram undecryptable (never accepted) -/
+theorem beyond_56_bits_rejected (r : Core) (key : KeyRef) (n v : Nat) (p : Bytes) (kid : Nat)
+    (hn : n = base (!r.half) + v) (hv : 2 ^ 56 ≤ v) (hv' : v < 2 ^ 95) :
+    ∃ e, (r.decrypt { hdr := kid :: Bytes.ofBE 7 n, body := .sealed key n p }).2 = .error e := by
+  apply decrypt_wrong_nonce r _ key n p rfl
+  rw [(sealed_fields kid n _).2.1, ← beVal_ofBE7]
+  intro h
+  have := (reconstruct_iff r n v hn hv').1 h.symm
+  omega
+
+/-- non-vacuity: counter 2^56 in the receiver's expected half is rejected, 2^56 - 1 is accepted -/
+example :
+    ((Core.new 7 false 8 [0, 0, 0, 0]).decrypt
+      { hdr := 0 :: Bytes.ofBE 7 (HALF + 2 ^ 56), body := .sealed 7 (HALF + 2 ^ 56) [1] }).2 = .error .openFailed ∧
+    ((Core.new 7 false 8 [0, 0, 0, 0]).decrypt
+      { hdr := 0 :: Bytes.ofBE 7 (HALF + 2 ^ 56 - 1), body := .sealed 7 (HALF + 2 ^ 56 - 1) [1] }).2 = .ok [1] := by
+  decide
+
+/-- a rotated-in key starts a fresh sequence in the owner's half with an empty replay window -/
+theorem rotate_fresh (c : Core) (key : KeyRef) (id : Nat) (use : Bool) (start : Nat) (h4 : c.slots.length = 4) :
+    (c.rotateKey key id use start).slots[id % 4]? = some (SlotKey.new key c.half start) ∧
+    (c.rotateKey key id use start).cur = (if use then id % 4 else c.cur) ∧
+    ∀ j, j ≠ id % 4 → (c.rotateKey key id use start).slots[j]? = c.slots[j]? := by
+  have hi : id % 4 < c.slots.length := by omega
+  refine ⟨?_, rfl, ?_⟩
+  · simp only [Core.rotateKey, Core.SLOTS, List.getElem?_set_self hi]
+  · intro j hj
+    simp only [Core.rotateKey, Core.SLOTS]
+    rw [List.getElem?_set_ne (fun h => hj h.symm)]
+
+/-- non-vacuity: rotating key 9 into slot 6 % 4 = 2 for sending -/
+example : ((Core.new 7 true 8 [1, 2, 3, 4]).rotateKey 9 6 true 11).slots[2]? = some (SlotKey.new 9 true 11) ∧
+    ((Core.new 7 true 8 [1, 2, 3, 4]).rotateKey 9 6 true 11).cur = 2 := by
+  decide
+
 end VpnCloud.Proofs.C04
